@@ -1,21 +1,28 @@
 #!/bin/bash
 # run_seeded.sh [names...]: apply each /verif/seeded/<name>/patch.diff to a scratch copy of /repo, run every registered check on
-# it, and record which checks raise a VIOLATION in /verif/seeded/<name>/RESULT.txt. Scratch copies are removed at once.
+# it, and record which checks raise a VIOLATION (exit 1) in /verif/seeded/<name>/RESULT.txt.  The machinery is run from a
+# snapshot of /verif taken at start (so that editing /verif meanwhile cannot distort the result); UNDECIDED (exit 3) is
+# recorded but never counted as raised.  Scratch copies are removed at once.
 export GOFLAGS=-mod=mod GOPROXY=off GOSUMDB=off GOTOOLCHAIN=local
 cd /verif
 NAMES=${@:-$(ls seeded)}
 CHECKS=$(python3 -c "import json;print(' '.join(c['property_id'] for c in json.load(open('/verif/MANIFEST.json'))['checks']))")
+SNAP=$(mktemp -d ${TMPDIR:-/var/tmp}/verif-snap.XXXXXX)
+rsync -a --exclude .git --exclude out --exclude evidence /verif/ $SNAP/
+trap 'rm -rf $SNAP' EXIT
 for n in $NAMES; do
   S=$(mktemp -d ${TMPDIR:-/var/tmp}/verif-seed.XXXXXX)
   rsync -a --exclude .git /repo/ $S/
   (cd $S && git init -q . && git apply /verif/seeded/$n/patch.diff) || { echo "$n: PATCH DOES NOT APPLY"; rm -rf $S; continue; }
   : > seeded/$n/RESULT.txt
-  RAISED=""
+  RAISED=""; UNDEC=""
   for p in $CHECKS; do
-    OUT=$(VERIF_REPO=$S VERIF_EVIDENCE_DIR=$S/.evidence ./check $p 2>&1); RC=$?
-    if [ $RC -ne 0 ]; then RAISED="$RAISED $p"; echo "$OUT" | grep -e '^VIOLATION' -e '^UNDECIDED' | sed "s#$S#<scratch>#g" | cut -c1-300 >> seeded/$n/RESULT.txt; fi
+    OUT=$(VERIF_REPO=$S VERIF_EVIDENCE_DIR=$S/.evidence $SNAP/check $p 2>&1); RC=$?
+    if [ $RC -eq 1 ]; then RAISED="$RAISED $p"; elif [ $RC -ne 0 ]; then UNDEC="$UNDEC $p"; fi
+    if [ $RC -ne 0 ]; then echo "$OUT" | grep -e '^VIOLATION' -e '^UNDECIDED' | sed -e "s#$S#<scratch>#g" -e "s#$SNAP#/verif#g" | cut -c1-300 >> seeded/$n/RESULT.txt; fi
   done
-  echo "$n: raised by:${RAISED:- NONE}"
+  echo "$n: raised by:${RAISED:- NONE}${UNDEC:+   (undecided:$UNDEC)}"
+  [ -n "$UNDEC" ] && echo "undecided:$UNDEC" >> seeded/$n/RESULT.txt
   echo "raised by:${RAISED:- NONE}" >> seeded/$n/RESULT.txt
   rm -rf $S
 done
